@@ -274,3 +274,36 @@ MANIFEST_TEXT["C10"] = {
     "technique": "runtime monitoring of the encoder's real output: captured CNF validated against reference families by exhaustive restricted satisfiability",
 }
 NOT_APPLICABLE[:] = [e for e in NOT_APPLICABLE if e["property_id"] not in ("C10",)]
+
+PROPS["C18"] = {
+    "level": "exploration",
+    "rule": "cases = (framework, problem, encoder, query): the SAT-boundary monitor counts every solve call of the query and compares the total with the property's bound summed over the weakly connected components (PR <= |base|+|PR|+1 with base = complete sets, admissible sets for SE-PR with the admissibility encoder; ID <= 2|CO|+|PR|+2; SST <= (n+2)|CO|+3; STG <= (n+2)|CF|+3; CO, ST <= 2), the families being computed by brute force. The monitor stops a query at 10 x bound + 64 calls (non-termination decided on logical steps). On connected frameworks two finer monitors run on the recorded call stream: within one PR/ID search (same negated selector) no two satisfiable calls return the same set on the argument variables; in a range search every growth call's model has a strictly larger set of true range variables than the one assumed. The dynamic preferred solver is checked on 12-step histories. Frameworks: all digraphs on 3 arguments, connected random graphs n <= 10, lattice shapes with many incomparable extensions, dense shapes, unions (summed form). Non-trivial: the query made >= 3 SAT calls; distinct = hash of (graph, problem, encoder, query).",
+    "assumptions": ["brute-force families per component (harness/src/refsem.rs)", "the selector of a search is the only negative assumption literal outside the argument and range variable blocks (derived from the public arg_to_lit / first_range_var)", "'every query terminates' is restated as bounded progress: the cap at 10 x bound + 64 SAT calls; wall-clock plays no role"],
+    "thresholds": {
+        "quick": {"evaluations": 200000, "distinct_nontrivial": 30000,
+                  "counters": {"searches_with_at_least_5_calls": 10000, "candidates_checked_for_repetition": 50000,
+                               "range_growth_steps_checked": 30000, "queries/dynamic-DS-PR": 5000, "queries/DS-PR": 5000, "queries/SE-ID": 3000}},
+        "thorough": {"evaluations": 4000000, "distinct_nontrivial": 500000, "counters": {}},
+    },
+}
+PROPS["C19"] = {
+    "level": "exploration",
+    "rule": "cases = frameworks with compact ids built through both readers (incl. repeated attack lines) and new_with_labels: all digraphs on <= 3 (thorough: 4) arguments, random graphs n <= 10, rings and paths of every length 2-9 with tails, lattice shapes, unions, duplicate-attack texts, and 20-100 argument graphs. For each: both mappings are total and inverse at class level, classes partition the arguments, merged arguments are never separated by a complete extension (all complete extensions by brute force for n <= 14; two SAT queries per merged pair with the independent reference encoding beyond), grounded arguments share a class, arguments defeated by the grounded extension share a class. Non-trivial: something was merged AND the framework has >= 2 complete extensions (or is a big graph with a merge); distinct = hash of (graph, presentation kind).",
+    "assumptions": ["brute-force complete extensions / independent CaDiCaL complete-labelling encoding of the harness"],
+    "thresholds": {
+        "quick": {"evaluations": 80000, "distinct_nontrivial": 8000,
+                  "counters": {"cases/something-merged": 30000, "cases/merged-with-several-complete-extensions": 5000, "cases/big-merged": 500, "refsat_pair_checks": 5000}},
+        "thorough": {"evaluations": 1200000, "distinct_nontrivial": 100000, "counters": {}},
+    },
+}
+MANIFEST_TEXT["C18"] = {
+    "level_text": "Online counting monitor at the SAT boundary: every query's number of solver calls is compared with a bound derived from brute-force families; a per-query call cap decides non-termination on logical steps; recorded call streams are checked for repeated candidates (PR/ID) and non-growing ranges (SST/STG).",
+    "design_ref": "DESIGN.md section 5, C18", "level_note": "Trusted: brute-force families, the monitor's counter. Unbounded termination is out of reach for runtime monitoring and is restated as bounded progress.",
+    "technique": "runtime monitoring: SAT-call counting monitor with cap, trace checks on recorded call streams",
+}
+MANIFEST_TEXT["C19"] = {
+    "level_text": "Reference-model monitoring of EquivalencyComputer: classes reconstructed through the two public mappings are checked for partition/inverse laws and against all complete extensions (brute force) or pairwise SAT separation queries (20-100 arguments).",
+    "design_ref": "DESIGN.md section 5, C19", "level_note": "Trusted: brute-force complete extensions and the independent reference encoding.",
+    "technique": "runtime monitoring: reference-model oracle (complete extensions) on generated frameworks",
+}
+NOT_APPLICABLE[:] = [e for e in NOT_APPLICABLE if e["property_id"] not in ("C18", "C19")]
